@@ -9,6 +9,7 @@ import (
 	"os"
 	"strings"
 
+	"verifharness/c05disp"
 	"verifharness/c05frame"
 	"verifharness/c05ts"
 	"verifharness/vh"
@@ -23,6 +24,7 @@ type part struct {
 var parts = []part{
 	{"ts", c05ts.Exec, c05ts.Gen},
 	{"frame", c05frame.Exec, c05frame.Gen},
+	{"disp", c05disp.Exec, c05disp.Gen},
 }
 
 func exec(op string) string {
@@ -40,7 +42,7 @@ func exec(op string) string {
 
 func main() {
 	if len(os.Args) >= 2 && os.Args[1] == "e2e" {
-		e2eMain(os.Args[2:])
+		c05disp.E2EMain(os.Args[2:])
 		return
 	}
 	mode, tier, path := vh.Args()
@@ -63,5 +65,6 @@ func main() {
 			out.Case(op, impl, class, nontrivial)
 		})
 	}
-	out.Close(map[string]interface{}{"crash_answers_by_site": known, "skipped_huge_pk_count": c05frame.Skipped})
+	out.Close(map[string]interface{}{"crash_answers_by_site": known, "skipped_huge_pk_count": c05frame.Skipped,
+		"subprocess_notes": c05disp.Notes})
 }
